@@ -167,6 +167,42 @@ def run(ctx):
     import random as _random, runsim
     runsim.whole_run_block(ctx, _random.Random(ctx.seed * 7919 + 3), 3 if ctx.quick() else 24)
 
+    # Richardson-extrapolated SPLITTING integrators (their own step-doubling / halving logic), forward and backward: the run must end on
+    # the target; a call that does not return within the alarm is reported as such
+    import signal as _signal
+
+    class _Timeout(Exception):
+        pass
+
+    def _alarm(signum, frame):
+        raise _Timeout()
+    for (bname, R) in [("ABAs5o6HSolver", 4), ("SymplecticEulerSolver", 3), ("BABs9o7HSolver", 3)]:
+        cls = de.integrators.generate_richardson_integrator(getattr(I, bname), R)
+        for (t0, tf) in [(0.0, 1.0), (0.0, -1.0), (2.0, 0.5), (-1.0, 1.0)]:
+            inp = dict(kind="richardson-splitting-run", basis=bname, richardson_iter=R, t0=t0, tf=tf, dt=0.1)
+            ode = de.OdeSystem(lambda t, y: np.array([y[1], -y[0]]), y0=np.array([1.0, 0.0]), t=(t0, tf), dt=0.1, rtol=1e-6, atol=1e-6)
+            ode.set_method(cls)
+            old = _signal.signal(_signal.SIGALRM, _alarm)
+            _signal.alarm(30)
+            try:
+                ode.integrate()
+                ts = np.array(ode.t)
+                d = np.diff(ts) * (1.0 if tf > t0 else -1.0)
+                exact = np.array([np.cos(ts[-1] - t0), -np.sin(ts[-1] - t0)])
+                ok = abs(float(ts[-1]) - tf) <= 1e-12 and bool(np.all(d > 0)) and float(np.max(np.abs(np.array(ode.y[-1]) - exact))) <= 1e-3
+                ctx.oracle("ends-at-target", ok, dict(inp, t_end=float(ts[-1]), steps=len(ts) - 1), key="richardson-splitting-run", what="run ended at %r after %d steps (target %r)" % (float(ts[-1]), len(ts) - 1, tf))
+            except _Timeout:
+                ctx.oracle("call-returns", False, inp, key="richardson-splitting-run-does-not-return", what="integrate() did not return within 30 s (span %r -> %r)" % (t0, tf))
+            except Exception as e:
+                if isinstance(getattr(e, "__cause__", None), _Timeout):      # the library wraps what is raised inside integrate()
+                    ctx.oracle("call-returns", False, inp, key="richardson-splitting-run-does-not-return", what="integrate() did not return within 30 s (span %r -> %r)" % (t0, tf))
+                else:
+                    ctx.oracle("ends-at-target", False, inp, key="richardson-splitting-run", what="raised %r" % (e,))
+            finally:
+                _signal.alarm(0)
+                _signal.signal(_signal.SIGALRM, old)
+            ctx.count("richardson-splitting:" + ("forward" if tf > t0 else "backward"))
+
 
 def replay(rep):
     return False
